@@ -57,3 +57,6 @@ func verifAssert(label string, c bool) {
 //@   loop 1 decreases hdr.NEntries - e
 //@   loop 1 invariant own: loopowned(entries)
 //@   loop 1 assigns entries
+
+//@ func (*txDataReader).readEntry
+//@   requires entry != nil
